@@ -22,7 +22,7 @@ LOOP_ACTIONS = ["MC_VBuild." + a for a in (
 PAR_ACTIONS = ["ParSolve." + a for a in ("FeederSend", "FeederSendFails", "FeederDrop", "MainError", "MainOk")]
 PEEL_ACTIONS = ["Peel." + a for a in ("PeelStep", "PeelEnd", "AssignStep", "AssignEnd")]
 
-REGIME_Q = [99, 100, 101, 99999, 100000, 100001, 199999, 799999, 800001]
+REGIME_Q = [99, 100, 101, 99999, 100000, 100001, 199999, 799999, 800000, 800001]
 REGIME_T = [98, 99, 100, 101, 102, 49999, 50000, 99999, 100000, 100001, 149999, 199999, 200000, 200001, 399999,
             400000, 400001, 799999, 800000, 800001, 1000000]
 
@@ -58,6 +58,7 @@ def episodes(prop, tier, seed):
         out["hints"] = (g.hint_matrix(seed + 2, sizes=(1000,) if q else (1000, 5000, 30000)), "verif")
         out["regimes"] = (g.regime_functions(seed + 3, REGIME_Q if q else REGIME_T, per_size=1 if q else 7), "verif")
         out["peelers"] = (g.peelers(seed + 7, sizes=(800001,) if q else (800001, 1000000, 2000000, 20000001)), "verif")
+        out["regime-logics"] = (g.regime_logics(seed + 15, sizes=(150000, 800000) if q else (100001, 150000, 500000, 800000)), "verif")
         out["mwhc-shards"] = (g.mwhc_shards(seed + 9, sizes=(200000,) if q else (200000, 1000000, 3000000)), "verif")
         out["sharded"] = (g.sharded_logics(seed + 11, "func", sizes=(100000,) if q else (100000, 120000, 199999)), "verif")
         out["wide-keys"] = (g.wide_int_keys(seed + 14, "func"), "verif")
@@ -75,6 +76,7 @@ def episodes(prop, tier, seed):
         out["combos"] = (g.every_combo(seed + 2, sizes=(0, 1, 3, 100, 101, 1000), kinds=("filter",)), "verif")
         out["regimes"] = (g.regime_filters(seed + 3, REGIME_Q if q else REGIME_T), "verif")
         out["peelers"] = (g.peelers(seed + 6, sizes=(800001,) if q else (800001, 1000000, 20000001)), "verif")
+        out["regime-logics"] = (g.regime_logics(seed + 15, sizes=(800000,) if q else (150000, 800000), kind="filter"), "verif")
         out["sharded"] = (g.sharded_logics(seed + 11, "filter", sizes=(100000,) if q else (100000, 120000, 199999)), "verif")
         out["wide-keys"] = (g.wide_int_keys(seed + 14, "filter"), "verif")
         out["retry"] = (g.retry_recipes(seed + 12, "filter", sizes=(200000,) if q else (200000, 400000), per_size=2 if q else 3), "verif")
